@@ -40,7 +40,7 @@ def oracle(ctx, cases):
 def run(ctx):
     runner.prove(ctx, MODULE, THEOREMS, FILES)
     cases = []
-    for s, w in valcases.schema_batch(ctx, ctx.n(80, 600), customs=False):
+    for s, w in valcases.scalar_corpus() + valcases.schema_batch(ctx, ctx.n(80, 600), customs=False):
         cases += valcases.value_cases(ctx, s, w, perturb=ctx.n(14, 40), zoo=ctx.n(3, 8), inject=ctx.n(2, 6))
     for c in cases:
         valcorr.run_real(c)
